@@ -104,7 +104,7 @@ package nodes
 // non-retraction carrying the visited item's values; with a limit, at most `limit` records are emitted in total,
 // duplicates counted individually, and emission stops only because the limit is reached or produce failed.
 //@ spec obItem(t *btree.BTree, k int) *orderByItem = tget(t, k, orderByItem)
-//@ spec obRI(t *btree.BTree) bool = addr(t) > 0 && forallK(k, thas(t, k) ==> ttag(t, k) == typeidptr(orderByItem) && 0 < addr(obItem(t, k)) && addr(obItem(t, k)) < frontier() && obItem(t, k).Count >= 1)
+//@ spec obRI(t *btree.BTree) bool = addr(t) > 0 && forallK(k, thas(t, k) ==> ttag(t, k) == typeidptr(orderByItem) && 0 < addr(obItem(t, k)) && addr(obItem(t, k)) < frontier() && obItem(t, k).Count >= 1 && keycls(obItem(t, k)) == k) && forallK(k1, forallK(k2, thas(t, k1) && thas(t, k2) && k1 != k2 ==> addr(obItem(t, k1)) != addr(obItem(t, k2))))
 //@ func produceOrderByItems
 //@   requires obRI(recordCounts) && (limit != nil ==> deref(limit) >= 0)
 //@   ascend 1 invariant bound: obRI(recordCounts) && len(OUT) >= old(len(OUT)) && i == len(OUT) - old(len(OUT)) && (limit != nil ==> i <= deref(limit))
@@ -126,7 +126,7 @@ package nodes
 //@ func (*OrderSensitiveTransform).Run
 //@   stream 1 invariant ri: obRI(recordCounts) && 0 < addr(recordCounts) && len(OUT) == 0 && len(OUTM) == 0
 //@   stream 1 step IN silent: len(OUT) == old(len(OUT)) && len(OUTM) == old(len(OUTM))
-//@   stream 1 step IN added: stepErr == nil && !lastIn().Retraction && !(limit != nil && o.noRetractionsPossible) ==> thas(recordCounts, keycls(L1_itemTyped)) && L1_itemTyped.Count == ite(old(thas(recordCounts, now(keycls(L1_itemTyped)))), old(obItem(recordCounts, now(keycls(L1_itemTyped))).Count), 0) + 1
+//@   stream 1 step IN added: stepErr == nil && !(limit != nil && o.noRetractionsPossible) ==> L1_itemTyped.Count == wrap64(ite(old(thas(recordCounts, now(keycls(L1_itemTyped)))), old(obItem(recordCounts, now(keycls(L1_itemTyped))).Count), 0) + ite(lastIn().Retraction, 0 - 1, 1)) && thas(recordCounts, keycls(L1_itemTyped)) == (L1_itemTyped.Count > 0)
 //@   stream 1 step IN values: stepErr == nil ==> L1_itemTyped.Values.base == lastIn().Values.base && L1_itemTyped.Values.off == lastIn().Values.off && L1_itemTyped.Values.len == lastIn().Values.len || old(thas(recordCounts, now(keycls(L1_itemTyped))))
 //@   stream 1 step IN frame: stepErr == nil && !(limit != nil && o.noRetractionsPossible) ==> forallK(k, k != keycls(L1_itemTyped) ==> thas(recordCounts, k) == old(thas(recordCounts, k)))
 //@   stream 1 step IN pruned: stepErr == nil ==> forallK(k, thas(recordCounts, k) ==> old(thas(recordCounts, k)) || k == keycls(L1_itemTyped))
@@ -135,3 +135,10 @@ package nodes
 //@   ensures errprop.limit: o.limit != nil && evalErr(deref(o.limit), execCtx) != nil ==> result != nil
 //@   ensures limit: result == nil && o.limit != nil ==> len(OUT) <= evalVal(deref(o.limit), execCtx).Int
 //@   ensures nometa: len(OUTM) == 0
+
+// C05: the ORDER BY / LIMIT node may prune rows beyond the limit while consuming its input only if the source can
+// never retract a row (otherwise a pruned row may be needed after a later retraction): a caller obligation.
+//@ spec appendOnly(n Node) bool
+//@ func NewOrderSensitiveTransform
+//@   requires prunesafe: noRetractionsPossible ==> appendOnly(source)
+//@   ensures built: result != nil
